@@ -1,6 +1,7 @@
 package main
 
 import (
+	"os"
 	"fmt"
 	"go/ast"
 	"go/parser"
@@ -16,7 +17,13 @@ import (
 //
 //	idlname x<bytes> | <len(dnrx.FindString)> <len(xdnrx.FindString)>
 
-const idlSourcePath = "/repo/varlink/idl/idl.go"
+// the source the regular expressions are read from: /repo, or the snapshot a background sweep runs against
+var idlSourcePath = func() string {
+	if r := os.Getenv("VERIF_REPO"); r != "" {
+		return r + "/varlink/idl/idl.go"
+	}
+	return "/repo/varlink/idl/idl.go"
+}()
 
 func idlNameRegexps() ([]*regexp.Regexp, error) {
 	fset := token.NewFileSet()
